@@ -632,6 +632,7 @@ pub fn h_c03_bytes() {
         s.push(b as char);
     }
     let r = xot.parse_bytes(&v);
+    sym::emit_u64("accepted", r.is_ok() as u64);
     sym::cover("returned");
     let mut xot2 = Xot::new();
     let r2 = xot2.parse(&s);
@@ -710,6 +711,8 @@ pub fn h_c02_bytes() {
     match xot.parse_bytes(&v) {
         Ok(doc) => {
             let el = xot.document_element(doc).unwrap();
+            // observable for the differential validation of the decode stub against the real encoding_rs
+            sym::emit_str("decoded", &xot.string_value(el));
             sym::check("bytes-decoded-in-the-declared-encoding", xot.string_value(el) == want);
         }
         Err(_) => sym::check("well-formed-document-accepted", false),
